@@ -2,6 +2,7 @@ package core
 
 import (
 	"fmt"
+	"reflect"
 	"runtime"
 	"runtime/debug"
 	"strings"
@@ -29,6 +30,11 @@ var pointNames = []string{
 	"file.blockread",
 	"storage.rlocked",
 	"storage.wlocked",
+	// points inserted by cmd/astyield in a scratch copy, in front of
+	// synchronisation operations that have no hand-placed point
+	"auto",
+	"auto.lock",
+	"auto.rlock",
 }
 
 // Point ids.
@@ -49,6 +55,9 @@ const (
 	PFileBlockRead
 	PStorageRLocked
 	PStorageWLocked
+	PAuto
+	PAutoLock
+	PAutoRLock
 	numPoints
 )
 
@@ -284,7 +293,7 @@ func (s *Sched) yieldHook(point string, obj any, n int64) {
 			return
 		}
 		t.cmdProbe = false
-		t.probeOK = realProbe(obj, point == "storage.rlock")
+		t.probeOK = realProbe(obj, point == "storage.rlock" || point == "auto.rlock")
 		s.Gate.Notify()
 	}
 }
@@ -544,6 +553,14 @@ func (s *Sched) Run(bodies []func(t *TaskCtx)) *RunResult {
 		}
 		t.pid = pid
 		oid := uint16(0)
+		if pid == PAutoLock || pid == PAutoRLock {
+			if obj != nil {
+				obj = derefLock(obj)
+				if reflect.ValueOf(obj).Kind() != reflect.Ptr {
+					obj = nil
+				}
+			}
+		}
 		if obj != nil && pid != PPoolGet && pid != PPoolPut {
 			// (which pooled object a query gets is not the program's
 			// decision -- sync.Pool drops objects at will, and randomly so
@@ -623,6 +640,17 @@ type tryRLocker interface {
 func (s *Sched) guard(t *task) bool {
 	switch t.pid {
 	case PStorageRLock, PStorageLock, PFileLock, PRuleLock:
+	case PAutoLock, PAutoRLock:
+		// a lock the hand-placed hooks do not know: no ownership tracking
+		// is possible, the real lock is probed - by the scheduler in the
+		// plain build, by the parked task itself in the race build
+		if t.obj == nil {
+			return true
+		}
+		if s.LockMode == LockProbe {
+			return realProbe(t.obj, t.pid == PAutoRLock)
+		}
+		return s.selfProbe(t)
 	default:
 		return true
 	}
@@ -677,7 +705,25 @@ func (s *Sched) guard(t *task) bool {
 	return false
 }
 
+// derefLock turns the &recv that astyield passes (a pointer to a pointer, or
+// to an interface, for receivers that are pointers or interfaces themselves)
+// into the lock value.
+func derefLock(obj any) any {
+	v := reflect.ValueOf(obj)
+	for v.Kind() == reflect.Ptr && !v.IsNil() && (v.Elem().Kind() == reflect.Ptr || v.Elem().Kind() == reflect.Interface) {
+		v = v.Elem()
+		if v.Kind() == reflect.Interface {
+			v = v.Elem()
+		}
+	}
+	if !v.IsValid() || !v.CanInterface() {
+		return obj
+	}
+	return v.Interface()
+}
+
 func realProbe(obj any, read bool) bool {
+	obj = derefLock(obj)
 	if read {
 		if l, ok := obj.(tryRLocker); ok {
 			if !l.TryRLock() {
